@@ -101,6 +101,10 @@ func (t *collationSortedTree[K, V]) Delete(key K) bool {
 			depth += int(node.prefixLen)
 		}
 
+		if depth >= len(colKey) {
+			return false
+		}
+
 		child := n.findChild(colKey[depth])
 
 		if child == nil {
@@ -332,6 +336,10 @@ func (t *collationSortedTree[K, V]) Search(key K) (V, bool) {
 			}
 
 			depth += int(node.prefixLen)
+		}
+
+		if depth >= len(colKey) {
+			return notFound, false
 		}
 
 		b := colKey[depth]
